@@ -80,7 +80,7 @@ def run_static(ctx, prop, scenario, variants, sections, rule, level="model_check
             k = dict(c)
             k.update({"id": len(cases), "impl": v["impl"], "cores": v.get("cores", 1), "split": v.get("split", 1),
                       "keys": keys, "ids": ids, "queries": qs, "sections": v.get("sections", sections),
-                      "order": v.get("order", ""), "replicas": v.get("replicas", 0)})
+                      "order": v.get("order", ""), "replicas": v.get("replicas", 0), "frame": v.get("frame", "")})
             cases.append(k)
     if cases:
         c0 = cases[min(len(cases) - 1, 11)]
@@ -91,16 +91,16 @@ def run_static(ctx, prop, scenario, variants, sections, rule, level="model_check
     for v in vs:
         ctx.evaluations += 1
         c = cases[v["id"]]
-        ctx.distinct_cases.add(canon([scenario, c["impl"], c["cores"], c["split"], c.get("order"), c["src"], c.get("upper")]))
+        ctx.distinct_cases.add(canon([scenario, c["impl"], c["cores"], c["split"], c.get("order"), c.get("frame", ""), c["src"], c.get("upper")]))
         for k, cnt in (v.get("stats") or {}).items():
             ctx.extra_cov[k] = ctx.extra_cov.get(k, 0) + cnt
         if v.get("ok"):
             continue
-        rep = {"scenario": scenario, "impl": c["impl"], "cores": c["cores"], "split": c["split"], "src": c["src"], "upper": c.get("upper")}
+        rep = {"scenario": scenario, "impl": c["impl"], "cores": c["cores"], "split": c["split"], "src": c["src"], "upper": c.get("upper"), "frame": c.get("frame", "")}
         ms = ((v.get("obs") or {}).get("mismatches")) if isinstance(v.get("obs"), dict) else None
         if ms:
             for m in ms:
-                ctx.fail(m["key"], "static scenario %d %s cores=%d: [%s] %s" % (scenario, c["impl"], c["cores"], m["section"], m["msg"]), dict(rep, mismatch=m))
+                ctx.fail(m["key"], "static scenario %d %s%s cores=%d: [%s] %s" % (scenario, c["impl"], (" frame=" + c["frame"]) if c.get("frame") else "", c["cores"], m["section"], m["msg"]), dict(rep, mismatch=m))
         else:
             ctx.fail(v.get("key") or "unknown", "static scenario %d %s: %s" % (scenario, c["impl"], v.get("msg", "")), dict(rep, verdict=v))
     ctx.traces_validated += len(cases)
